@@ -9,7 +9,7 @@
     empty maps; nothing else;
   * `Pool.Ok` : well-formedness of a descriptor pool that protoc guarantees and the round trip
     needs (distinct field names and numbers per message, enum values without aliases and with
-    names that stay distinct when ASCII case is ignored).
+    names that are UTF-8 and stay distinct when ASCII case is ignored).
 -/
 import VrlModel.Proto
 
@@ -57,9 +57,10 @@ def negZero64 : Nat := 9223372036854775808
 /-- defect of a value for a scalar kind (`singular` = the field has no presence) -/
 def defectScalar (singular : Bool) : Scalar → Value → Option Defect
   | .double, .float b =>
-    if F64.isNaN b then some .kind else if singular && b == negZero64 then some .negZero else none
+    if F64.isNaN b || !decide (b < F64.p64) then some .kind
+    else if singular && b == negZero64 then some .negZero else none
   | .float, .float b =>
-    if F64.isNaN b then some .kind
+    if F64.isNaN b || !decide (b < F64.p64) then some .kind
     else if !F32.exact b then some .f32
     else if singular && b == negZero64 then some .negZero else none
   | .bool, .bool _ => none
@@ -200,7 +201,8 @@ def MsgDesc.Ok (md : MsgDesc) : Bool :=
 
 def EnumDesc.Ok (ed : EnumDesc) : Bool :=
   distinctBy (fun p : List Nat × Int => p.1.map Utf8.lowerAscii) ed.values &&
-  distinctBy (fun p : List Nat × Int => p.2) ed.values
+  distinctBy (fun p : List Nat × Int => p.2) ed.values &&
+  ed.values.all (fun p => Utf8.valid p.1)
 
 /-- what protoc guarantees about the descriptors and the round trip relies on -/
 def Pool.Ok (p : Pool) : Bool := p.msgs.all MsgDesc.Ok && p.enums.all EnumDesc.Ok
